@@ -100,7 +100,9 @@ def run(ctx):
     # ---- C09.a
     ca = res.clause('C09.a', 'R-TYPESTATE', 'operation decorator: every exit idle', floor=4)
     fac, deco, cl = roles.closures['operation']
-    dom = rm.run_closure(ctx, 'operation', 'idle')
+    # fault model of C09: besides the usual one, every cassette call may fail (third-party cassette: "a failure inside the
+    # framework") and every plug-in may be interrupted (BaseException)
+    dom = rm.run_closure(ctx, 'operation', 'idle', framework_faults=True)
     check_idle(res, ca, dom, roles.start, cl.qualname, fields)
     if dom.exits:
         n, s = dom.exits[-1]
@@ -108,7 +110,7 @@ def run(ctx):
 
     # ---- C09.b
     cb = res.clause('C09.b', 'R-TYPESTATE', 'play(): every exit idle', floor=3)
-    dp = rm.run_method(ctx, roles.play, 'idle')
+    dp = rm.run_method(ctx, roles.play, 'idle', framework_faults=True)
     check_idle(res, cb, dp, roles.play, roles.play.qualname, fields)
 
     # ---- C09.c
